@@ -188,10 +188,11 @@ def gen_case(rng):
     opts = []
     k = rng.random()
     if k < 0.3:
-        n = rng.choice([1, 2, 3, 5])
+        # (values at the top of the range are legal: -n is only an upper bound)
+        n = rng.choice([1, 2, 3, 5, 1, 2, 3, 5, 1000, 10 ** 11, 2 ** 59, 2 ** 62, 2 ** 63 - 1, 2 ** 63, 2 ** 64 - 1])
         opts += ["-n", str(n)] if rng.random() < 0.7 else ["--max-args=%d" % n]
     elif k < 0.55:
-        L = rng.choice([1, 2, 3])
+        L = rng.choice([1, 2, 3, 1, 2, 3, 1, 2, 3, 10 ** 11, 2 ** 62, 2 ** 64 - 1])
         opts += ["-L", str(L)] if rng.random() < 0.7 else ["--max-lines=%d" % L]
     elif k < 0.6:
         # both given: the later one is in force
